@@ -39,15 +39,34 @@ impl<V> BTreeMap<String, V> {
         ensures final(self).view_spec() == old(self).view_spec().insert(k@, v)
     { unimplemented!() }
 }
-#[verifier::external_body]
-pub struct ForLoop { _p: () }
+/// R16b: what the dispatch loop does after an arm: `ip += 1` (Next) or `ip = t` (Jump(t))
+pub enum VxNext { Next, Jump(usize) }
+/// ForLoop: its `end_ip` field is real, the rest opaque (protocol proved in unit for_loop)
+// the protocol state of a loop lives in its opaque part (so assigning `end_ip` cannot change it)
+pub uninterp spec fn vx_fl_k_spec(o: VxOpaque) -> int;
+pub uninterp spec fn vx_fl_len_spec(o: VxOpaque) -> int;
+pub uninterp spec fn vx_fl_locals_spec(o: VxOpaque) -> Map<Name, Value>;
+pub uninterp spec fn vx_fl_rest_spec(o: VxOpaque) -> int;
+pub uninterp spec fn vx_fl_names_spec(o: VxOpaque) -> Seq<Name>;
+pub uninterp spec fn vx_fl_iterated_spec(o: VxOpaque) -> bool;
+pub struct ForLoop { pub end_ip: usize, pub vx_opaque: VxOpaque }
 impl ForLoop {
+    /// number of advances done / number of items (the protocol state of unit for_loop)
+    pub open spec fn k_spec(&self) -> int { vx_fl_k_spec(self.vx_opaque) }
+    pub open spec fn len_spec(&self) -> int { vx_fl_len_spec(self.vx_opaque) }
+    #[verifier::external_body]
+    pub fn is_over(&self) -> (r: bool) ensures r == (self.k_spec() == self.len_spec()) { unimplemented!() }
+    #[verifier::external_body]
+    pub fn advance(&mut self)
+        ensures final(self).k_spec() == old(self).k_spec() + 1, final(self).len_spec() == old(self).len_spec(), final(self).end_ip == old(self).end_ip,
+                final(self).names_spec() == old(self).names_spec(), final(self).rest_spec() == old(self).rest_spec()
+    { unimplemented!() }
     /// per-iteration locals (`{% set %}` inside the loop body)
-    pub uninterp spec fn locals_spec(&self) -> Map<Name, Value>;
+    pub open spec fn locals_spec(&self) -> Map<Name, Value> { vx_fl_locals_spec(self.vx_opaque) }
     /// everything else about the loop (iterator, counters, value/key names)
-    pub uninterp spec fn rest_spec(&self) -> int;
-    pub uninterp spec fn names_spec(&self) -> Seq<Name>;
-    pub uninterp spec fn iterated_spec(&self) -> bool;
+    pub open spec fn rest_spec(&self) -> int { vx_fl_rest_spec(self.vx_opaque) }
+    pub open spec fn names_spec(&self) -> Seq<Name> { vx_fl_names_spec(self.vx_opaque) }
+    pub open spec fn iterated_spec(&self) -> bool { vx_fl_iterated_spec(self.vx_opaque) }
     pub uninterp spec fn fresh_for(container: Value, comprehension: bool) -> ForLoop;
     #[verifier::external_body]
     pub fn store(&mut self, name: &str, value: Value)
